@@ -25,8 +25,8 @@ def build_cli():
 def run(tier, rep):
     c.build_harness()
     build_cli()
-    derives = (["", "Debug", "Serialize, Deserialize", " Debug ", "Serialize,Deserialize"] if tier == "quick" else
-               ["", "Debug", "Serialize, Deserialize", " Debug ", "Serialize,Deserialize", "Clone, PartialEq", "a b", "Debug,", "A,B"])
+    derives = (["", "Debug", "Serialize, Deserialize", " Debug ", "Serialize,Deserialize", "{}"] if tier == "quick" else
+               ["", "Debug", "Serialize, Deserialize", " Debug ", "Serialize,Deserialize", "Clone, PartialEq", "a b", "Debug,", "A,B", "{}", "%s"])
     cfg = c.cfg_text(constants=dict(Emit=True), invariants=["InvC12", "EmitCase"], properties=["Terminates"])
     cases = os.path.join(c.OUT, "cases", "C12.ndjson")
     r = c.run_tlc("MC_Cli", cfg, "C12-mc", defs={"Derives": "{" + ",".join(rc.tla_str(x) for x in derives) + "}"},
